@@ -63,7 +63,7 @@ StepRT ==
           exp == ReadVTK(fl)
           b   == Ev.back
       IN /\ obs' = IF Ev.ok THEN Ok(b) ELSE Rej
-         /\ Verd(Ev.form = Ev.repr, "C16_FileForm")
+         /\ Verd(Ev.form = FormOf(Ev.repr), "C16_FileForm")
          /\ Verd(Ev.side = fl.side, "C16_SidecarIffSubregions")
          /\ Verd(Ev.ok, "C16_RoundTrip-read-raises")
          /\ Verd(Ev.ok => Ev.rel = exp.rel, "rt-relation")
